@@ -668,6 +668,49 @@ impl<'a> G<'a> {
         RawCase { defs, files: vec![("main.rssl".to_string(), main)] }
     }
 
+    /// one text for the entry point `preprocess_fragment` (request `C11.frag`): a single-file program of the
+    /// ordinary generators, with lines in front that look at the define the function supplies
+    /// (`__HLSL_VERSION`): tested with every relational operator, `#ifdef` / `#ifndef` / `defined`, as text,
+    /// redefined, undefined, or not mentioned at all; sometimes the fragment includes itself by its own name
+    pub fn frag_case(&mut self) -> RawCase {
+        let mut base = None;
+        for _ in 0..6 {
+            let c = if self.r.chance(1, 3) { self.cond_case() } else { self.case() };
+            if c.files.len() == 1 {
+                base = Some(c);
+                break;
+            }
+        }
+        let base = base.unwrap_or_else(|| self.cond_case());
+        let mut main = String::new();
+        let v = "__HLSL_VERSION";
+        let k = self.r.below(12);
+        self.kinds.add(&format!("frag-version-use:{}", k));
+        match k {
+            0 => {}
+            1 => {
+                let op = *self.r.pick(&[">=", "==", "<", "<=", ">", "!="]);
+                let n = *self.r.pick(&["2021", "2018", "2022", "0", "1"]);
+                main.push_str(&format!("#if {} {} {}\nvt\n#else\nvf\n#endif\n", v, op, n));
+            }
+            2 => main.push_str(&format!("#ifdef {}\nvdef\n#else\nvundef\n#endif\n", v)),
+            3 => main.push_str(&format!("#ifndef {}\n#define {} 2018\nvundef\n#endif\n", v, v)),
+            4 => main.push_str(&format!("#if defined({}) && {} == 2021\nvt\n#elif defined {}\nvother\n#else\nvnone\n#endif\n", v, v, v)),
+            5 => main.push_str(&format!("#undef {}\n#if {}\nvt\n#else\nvf\n#endif\n", v, v)),
+            6 => main.push_str(&format!("#define {} 2016\n#if {} < 2021\nvold\n#endif\n", v, v)),
+            7 => main.push_str(&format!("#if {} < 2021\nvold\n#elif {} == 2021\nv2021\n#else\nvnew\n#endif\n", v, v)),
+            8 => main.push_str(&format!("#if 0\n#undef {}\n#endif\n#if {}\nvt\n#endif\n", v, v)),
+            9 => main.push_str(&format!("#if !{}\nvzero\n#else\nvset\n#endif\n", v)),
+            10 => main.push_str("#ifndef FRAG_AGAIN\n#define FRAG_AGAIN\nfirst\n#include \"main.rssl\"\n#else\nsecond\n#endif\n"),
+            _ => main.push_str(&format!("version {}\n", v)),
+        }
+        let body = &base.files[0].1;
+        let at_end = self.r.chance(1, 3);
+        let text = if at_end { format!("{}{}", body, if body.ends_with('\n') || body.is_empty() { main.clone() } else { format!("\n{}", main) }) } else { format!("{}{}", main, body) };
+        let text = if self.r.chance(1, 2) { format!("{}probe {} A B\n", if text.ends_with('\n') || text.is_empty() { text.clone() } else { format!("{}\n", text) }, v) } else { text };
+        RawCase { defs: Vec::new(), files: vec![("main.rssl".to_string(), text)] }
+    }
+
     /// one header of the re-include stream; `g` = its guard macro, `lower` = names of headers it may include
     fn guard_header(&mut self, kind: u64, i: usize, g: &str, lower: &[String]) -> String {
         let fancy = self.r.chance(1, 4);
@@ -1066,4 +1109,8 @@ pub fn request_of(c: &RawCase) -> String {
         f.push(format!("{}={}", n, escape(t)));
     }
     f.join("\t")
+}
+
+pub fn request_of_frag(c: &RawCase) -> String {
+    format!("C11.frag\t{}", escape(&c.files[0].1))
 }
